@@ -37,7 +37,8 @@ RULE_GEN = ("; S-GEN: every function of the generated model lean/BBGen/Gen.lean 
 
 PROPS: dict = {
     "C01": {"suites": [props_tree.c01, gen.suite_gen({"subcluster"})], "rule": RULE_TREE + RULE_GEN},
-    "C02": {"suites": [props_tree.c02, gen.suite_gen({"min_safe_uint", "centroid", "subcluster"})], "rule": RULE_TREE + RULE_GEN},
+    "C02": {"suites": [props_tree.c02, gen.suite_gen({"min_safe_uint", "centroid", "subcluster"}), multiround.suite_c05],
+            "rule": RULE_TREE + RULE_GEN + "; S-MR: summaries rebuilt from saved buffers in the multi-round workflow (" + RULE_MR + ")"},
     "C03": {"suites": [props_tree.c03, gen.suite_gen({"merges"})], "rule": RULE_TREE + RULE_GEN},
     "C04": {"suites": [c04.suite_repr, c04.suite_pages, gen.suite_gen({"pages"})],
             "rule": "data sets x 5-10 random (representation, dtype, chunking) variants {packed,unpacked} x {ndarray,list,Path,str path} x 8 "
